@@ -1,6 +1,7 @@
 (* C19 model runner: one case per line on stdin, one result per line on stdout.
    M <hex>      validateMediaType
    T <hex>      the created validation of pack.go (validateRFC3339) accepts
+   L <hex>      time.Parse(time.RFC3339, _) alone succeeds (the lenient recogniser)
    U <hex>      a string after json.Marshal / Unmarshal (invalid UTF-8 coerced)
    K <fn> <exists> <key 0=full 1=digest 2=namespace 3=file> <failat|-> <at> <subject> <layers> <ann> <config> <config_ann> <store>
    Descriptors  D:<mt>:<dg>:<size>:<ann>:<at>:<extra>   (hex fields, "-" = empty)
@@ -95,6 +96,7 @@ let () =
   iter_lines (fun l ->
     match split_ws l with
     | [id; "M"; h] -> Printf.printf "%s %s\n" id (if valid_media_type (str_of_hex h) then "1" else "0")
+    | [id; "L"; h] -> Printf.printf "%s %s\n" id (if rfc3339_ok_prefix (str_of_hex h) then "1" else "0")
     | [id; "U"; h] -> Printf.printf "%s %s\n" id (hex_of_str (utf8_san (str_of_hex h)))
     | [id; "T"; h] -> Printf.printf "%s %s\n" id (if rfc3339_ok (str_of_hex h) then "1" else "0")
     | [id; "K"; f; ex; bd; fa; at; subj; layers; ann; cfg; cann; store; _spec] ->
